@@ -391,7 +391,13 @@ pub fn run(tier: Tier, seed: u64) -> i32 {
             let mut r_s2c = wrath_stream(key, Dir::ServerToClient);
             for i in 0..n_headers {
                 // server -> client
-                let size: u32 = if i % 3 == 1 { 0x8000 + (i as u32 * 7919) % 0x7F_0000 } else { (i as u32 * 31) % 0x8000 };
+                let size: u32 = if i % 16 == 5 {
+                    [0x7FFFu32, 0x8000, 0x8001, 0x7F_FFFF, 0, 1, 0xFFFF, 0x1_0000][(i / 16) % 8]
+                } else if i % 3 == 1 {
+                    0x8000 + (i as u32 * 7919) % 0x7F_0000
+                } else {
+                    (i as u32 * 31) % 0x8000
+                };
                 let opcode: u16 = (i as u16).wrapping_mul(257);
                 let mut want = refmodel::cipher::wrath_server_header_plain(size, opcode);
                 r_s2c.apply(&mut want);
@@ -408,6 +414,10 @@ pub fn run(tier: Tier, seed: u64) -> i32 {
                         WrathServerAttempt::Header(h) => Some((h.size, h.opcode)),
                         WrathServerAttempt::AdditionalByteRequired => {
                             if want.len() == 5 {
+                                // every other time the half is replaced by its clone between the two steps
+                                if i % 8 >= 4 {
+                                    cd = cd.clone();
+                                }
                                 let h = cd.decrypt_large_server_header(want[4]);
                                 Some((h.size, h.opcode))
                             } else {
